@@ -21,6 +21,7 @@ import (
 	"go/token"
 	"go/types"
 	"os"
+	"runtime/debug"
 	"strings"
 
 	"golang.org/x/tools/go/packages"
@@ -76,26 +77,46 @@ func main() {
 	}
 }
 
-func dumpFile(d *c14dump.Dumper, file string, mode ir.BuilderMode) {
-	pid := d.Package("src/"+file, file)
+// buildFile type-checks and builds one single-file package. A panic of the builder is
+// returned as text (message + stack), never hidden: the caller records it.
+func buildFile(file string, mode ir.BuilderMode) (pkg *ir.Package, errText string) {
 	defer func() {
 		if r := recover(); r != nil {
-			// a panic of the builder is not C14's subject; recorded, not hidden
-			d.Error(pid, fmt.Sprintf("builder panic: %v", r))
+			pkg = nil
+			errText = fmt.Sprintf("builder panic: %v\n%s", r, debug.Stack())
 		}
 	}()
 	fset := token.NewFileSet()
 	f, err := parser.ParseFile(fset, file, nil, parser.ParseComments|parser.SkipObjectResolution)
 	if err != nil {
-		d.Error(pid, "parse: "+err.Error())
-		return
+		return nil, "parse: " + err.Error()
 	}
 	tc := &types.Config{Importer: importer.ForCompiler(fset, "source", nil)}
-	pkg := types.NewPackage("c14/"+f.Name.Name, f.Name.Name)
-	irpkg, _, err := irutil.BuildPackage(tc, fset, pkg, []*ast.File{f}, mode)
+	tpkg := types.NewPackage("c14/"+f.Name.Name, f.Name.Name)
+	irpkg, _, err := irutil.BuildPackage(tc, fset, tpkg, []*ast.File{f}, mode)
 	if err != nil {
-		d.Error(pid, "types: "+err.Error())
-		return
+		return nil, "types: " + err.Error()
+	}
+	return irpkg, ""
+}
+
+func dumpFile(d *c14dump.Dumper, file string, mode ir.BuilderMode) {
+	pid := d.Package("src/"+file, file)
+	irpkg, errText := buildFile(file, mode)
+	if errText != "" {
+		d.Error(pid, errText)
+		if strings.HasPrefix(errText, "builder panic") && mode&ir.NaiveForm == 0 {
+			// The dominator tree is built before lifting; without lifting (NaiveForm) the
+			// CFG is the same, so the dominance information can still be observed.
+			pid = d.Package("src/"+file+"#naive", file)
+			irpkg, errText = buildFile(file, mode|ir.NaiveForm)
+			if errText != "" {
+				d.Error(pid, errText)
+				return
+			}
+		} else {
+			return
+		}
 	}
 	for _, fn := range c14dump.SrcFuncs(irpkg) {
 		d.Function(pid, fn)
@@ -132,7 +153,7 @@ func dumpPkgs(d *c14dump.Dumper, dir string, patterns []string, mode ir.BuilderM
 		func() {
 			defer func() {
 				if r := recover(); r != nil {
-					d.Error(pid, fmt.Sprintf("builder panic: %v", r))
+					d.Error(pid, fmt.Sprintf("builder panic: %v\n%s", r, debug.Stack()))
 				}
 			}()
 			irpkg.Build()
